@@ -412,10 +412,21 @@ def app_failure_cases(role):
     return cases
 
 
-EXC_SHAPES = ('int-arg', 'exc-arg', 'no-args', 'bytes-arg', 'non-ascii', 'none-arg', 'tuple-arg', 'long-text')
+EXC_SHAPES = ('int-arg', 'exc-arg', 'no-args', 'bytes-arg', 'non-ascii', 'none-arg', 'tuple-arg', 'long-text',
+              'os-error', 'timeout-error', 'transport-error', 'protocol-error', 'application-error')  # the last five: what a handler gets from an upstream call
 
 
 def make_exc(shape):
+    if shape in ('transport-error', 'protocol-error', 'application-error'):
+        from rsocket.exceptions import RSocketTransportError, RSocketProtocolError, RSocketApplicationError
+        from rsocket.error_codes import ErrorCode
+        return {'transport-error': lambda: RSocketTransportError('upstream connection lost'),
+                'protocol-error': lambda: RSocketProtocolError(ErrorCode.REJECTED, data='upstream rejected'),
+                'application-error': lambda: RSocketApplicationError('upstream application error')}[shape]()
+    if shape == 'os-error':
+        return ConnectionResetError('upstream reset')
+    if shape == 'timeout-error':
+        return TimeoutError('upstream timeout')
     return {'text': lambda: AppRaise('handler raises'), 'int-arg': lambda: KeyError(7), 'exc-arg': lambda: RuntimeError(ValueError('inner')),
             'no-args': lambda: Exception(), 'bytes-arg': lambda: Exception(b'\xff\xfebytes'), 'non-ascii': lambda: Exception('h\u00e9llo \u2713'),
             'none-arg': lambda: Exception(None), 'tuple-arg': lambda: KeyError(('a', 1)), 'long-text': lambda: Exception('x' * 70000)}[shape]()
@@ -627,7 +638,8 @@ APP_CASES_SERVER = (['handler-%s-raises%s' % (m, a) for m in ('request_response'
                     + ['%s-%s' % (a, wh) for a in ('rx3', 'rx4') for wh in ('observable-errors-at-once', 'observable-errors-after-one', 'response-errors')]
                     + ['publisher-errors']
                     + ['%s@%s' % (c, sh) for sh in EXC_SHAPES for c in ('handler-request_response-raises', 'handler-request_stream-raises-after-await',
-                                                                         'handler-request_channel-raises', 'future-fails', 'publisher-errors')])
+                                                                         'handler-request_channel-raises', 'handler-request_fire_and_forget-raises',
+                                                                         'handler-on_metadata_push-raises-after-await', 'future-fails', 'publisher-errors')])
 APP_CASES_CLIENT = ['stream-subscriber-raises-S', 'stream-subscriber-raises-N', 'stream-subscriber-raises-C', 'stream-subscriber-raises-E']
 
 
